@@ -447,6 +447,7 @@ std::unique_ptr<Delegate> delegate;
 std::unique_ptr<BuildEngine> engine;
 
 bool sqliteBackend = false;
+bool sqliteKeep = false;      // op `q <path>`: a database file given by the driver, which outlives this process
 std::string sqlitePath;
 
 void newEngine(bool withDB) {
@@ -470,7 +471,8 @@ void newEngine(bool withDB) {
     }
   }
 }
-void removeSqliteFile() {
+void removeSqliteFile(bool atExit = false) {
+  if (atExit && sqliteKeep) return;
   if (!sqlitePath.empty()) {
     unlink(sqlitePath.c_str());
     unlink((sqlitePath + "-journal").c_str());
@@ -658,6 +660,14 @@ int main(int argc, char** argv) {
         for (auto& d : kv.second.deps) out += " " + keyNum(KeyType(d.first)) + ":" + std::to_string(d.second);
       }
       std::cout << out << "\n";
+    } else if (op == 'q') {
+      // `q <path>`: the real SQLite database in the given file (kept when this process ends or is killed)
+      sqliteBackend = true; sqliteKeep = true;
+      sqlitePath = line.size() > 2 ? line.substr(2) : std::string();
+      while (!sqlitePath.empty() && (sqlitePath.back() == '\n' || sqlitePath.back() == ' ')) sqlitePath.pop_back();
+      engine.reset();
+      newEngine(true);
+      std::cout << "ok\n";
     } else if (op == 'Q') {
       sqliteBackend = nums(line, 1).at(0) != 0;
       engine.reset();
@@ -673,6 +683,6 @@ int main(int argc, char** argv) {
     std::cout.flush();
   }
   engine.reset();
-  removeSqliteFile();
+  removeSqliteFile(true);
   return 0;
 }
